@@ -776,6 +776,7 @@ impl Family for Patterns {
         let (lo, hi) = (case["lo"].as_u64().unwrap() as usize, case["hi"].as_u64().unwrap() as usize);
         let mut count = 0u64;
         let mut reported = std::collections::BTreeMap::<String, u32>::new();
+        let mut sep_checked = 0u32;
         for (si, spec) in all[lo..hi].iter().enumerate() {
             let depth = depth_for(&spec.ty);
             let pt = pt_of(&spec.ty);
@@ -837,6 +838,24 @@ impl Family for Patterns {
                     // rejected non-exhaustive literal matches are the documented behaviour
                     if f.class.starts_with("compile.rejected") && f.detail.to_lowercase().contains("exhaustive") && lit && !var.catch_all {
                         rep.tag("rejected:non-exhaustive-literal-match");
+                        // the same program package by package (build, then link): refused there as well
+                        if sep_checked < 6 {
+                            sep_checked += 1;
+                            let text = crate::ug::print::print_main(&prog);
+                            match crate::families::common::run_text_separate(ctx, &text) {
+                                Err((class, _)) if class.starts_with("rejected") => rep.tag("rejected-by-build-as-well"),
+                                Err((class, msg)) if class.starts_with("machinery") => {
+                                    rep.tag("machinery:separate-pipeline");
+                                    rep.sample = Some(json!({"site": site, "msg": msg}));
+                                }
+                                other => {
+                                    let how = match &other { Ok(o) => format!("built, linked and ran: {:?}/{}", lossy(&o.stdout), end_tag(&o.end)), Err((c, m)) => format!("{}: {}", c, m) };
+                                    for p in ["C06"] {
+                                        rep.findings.push(Finding { property: p, class: "non-exhaustive-literal-match.accepted-by-build".into(), site: site.clone(), detail: format!("whole-program compilation refuses the match for want of a catch-all; build + link: {}", how), replay: json!({"kind": "text", "text": text, "oracle": "must-reject-separately"}) });
+                                    }
+                                }
+                            }
+                        }
                         continue;
                     }
                     let key = format!("{}|{}|{}", f.property, f.class, f.site);
